@@ -52,6 +52,7 @@ func sxgVerifyInst(c *core.Ctx, label string) *inst {
 	var l *gen.LSXG
 	for {
 		l = gen.DrawSXG(c, label, 1)
+		l.Leaf = maybeFresh(c, label, l.Leaf)
 		if _, err := l.Sign(); err == nil {
 			break
 		}
@@ -207,7 +208,18 @@ func miDecodeInst(c *core.Ctx, label string) *inst {
 }
 
 func fixturesLeaf(c *core.Ctx, label string) *fixtures.Leaf {
-	return fixtures.Leaves[c.Pick(label+".leaf", len(fixtures.Leaves))]
+	return maybeFresh(c, label, fixtures.Leaves[c.Pick(label+".leaf", len(fixtures.Leaves))])
+}
+
+// maybeFresh: in half of the draws the certificates are content-fresh (never seen
+// by this process before), so that whatever the code under test remembers about
+// certificates is filled in during the judged calls, not before them.
+func maybeFresh(c *core.Ctx, label string, l *fixtures.Leaf) *fixtures.Leaf {
+	if c.Bool(label + ".freshCert") {
+		c.Probe("content-fresh certificates")
+		return fixtures.Fresh(l, c.Bytes(label+".certSalt", 6, 6))
+	}
+	return l
 }
 
 func certsOf(l *fixtures.Leaf) []*x509.Certificate {
@@ -235,7 +247,7 @@ func bsigVerifyInst(c *core.Ctx, label string, sharedVerifier bool) *inst {
 	var leaves []*fixtures.Leaf
 	used := map[string]bool{}
 	for _, pi := range perm {
-		l := fixtures.Leaves[pi]
+		l := maybeFresh(c, label, fixtures.Leaves[pi])
 		h := l.Hosts[0]
 		if h[0] == '*' {
 			h = "sub" + h[1:]
